@@ -118,6 +118,9 @@ func c11Cases(env vk.Env) []vk.Case {
 		i := i
 		cs = append(cs, vk.Case{ID: fmt.Sprintf("frost/%d", i), Run: func(t *vk.T) { c11Frost(t, i, env) }})
 		cs = append(cs, vk.Case{ID: fmt.Sprintf("bip340/%d", i), Run: func(t *vk.T) { c11BIP340(t, i) }})
+		if i < env.Pick(1, 4) {
+			cs = append(cs, vk.Case{ID: fmt.Sprintf("signers-equal-concatenation/%d", i), Run: func(t *vk.T) { c11Concat(t, i) }})
+		}
 	}
 	return cs
 }
@@ -370,5 +373,46 @@ func c11BIP340(t *vk.T, i int) {
 	}
 	if i == 0 {
 		t.Sample(map[string]any{"kind": "bip340 nonce lattice", "pairs": len(items) * (len(items) - 1) / 2, "randomness": []string{"constant", "nil (internal counter)", "honest"}})
+	}
+}
+
+// c11Concat: two signer sets of equal size whose sorted identifiers concatenate to the same string ({x,a,bc} and
+// {x,ab,c}): under a pinned random source the same signer must still publish different nonce commitments for them.
+func c11Concat(t *vk.T, i int) {
+	r := t.Rng
+	saved := rand.Reader
+	defer func() { rand.Reader = saved }()
+	ids := []party.ID{"x", "a", "bc", "ab", "c"}
+	k, _, err := fx.FrostKeygen(r, ids, 2, fx.Opt{})
+	if err != nil {
+		t.Inconclusive("keygen failed: %v", err)
+		return
+	}
+	me := party.ID("x")
+	msg, sid := r.Bytes(32), r.Bytes(6)
+	sets := [][]party.ID{{"x", "a", "bc"}, {"x", "ab", "c"}}
+	for _, variant := range []string{"plain", "taproot"} {
+		for _, rd := range []struct {
+			name string
+			mk   func() io.Reader
+		}{{"constant", func() io.Reader { return constReader{0x17} }}, {"cycle", func() io.Reader { return &cycleReader{buf: []byte{9, 8, 7, 6, 5}} }}} {
+			var outs [][]byte
+			for _, S := range sets {
+				c := &c11Ctx{dims: map[string]string{}, variant: variant, cfg: k[me], tcfg: taprootView(k[me]), signers: S, sid: sid, msg: msg}
+				rand.Reader = rd.mk()
+				o, err := c.commitments()
+				rand.Reader = saved
+				if err != nil {
+					t.Inconclusive("signer set %q could not start: %v", S, err)
+					return
+				}
+				outs = append(outs, o)
+			}
+			t.Obs("evaluations", 1)
+			t.Distinct("frost|%s|%s|signers=equal-concatenation", variant, rd.name)
+			if bytes.Equal(outs[0], outs[1]) {
+				t.Violation("frost|nonce-reuse|"+rd.name+"|signers-equal-concatenation", "%s signing: signer sets %q and %q publish the same nonce commitments under a %s random source", variant, sets[0], sets[1], rd.name)
+			}
+		}
 	}
 }
